@@ -282,6 +282,9 @@ func genUEChoice(t *rapid.T, k int, taken map[uint64]bool) refamf.UEChoice {
 			u.Options |= refamf.OptDLMobilityRestr | refamf.OptICSMobilityRestr
 		}
 	}
+	if rapid.IntRange(0, 35).Draw(t, l+"late_cuc") == 0 {
+		u.CUCDelayMs = rapid.SampledFrom([]int{600, 600, 1100}).Draw(t, l+"cuc_delay_ms")
+	}
 	u.UEIP = drawIPv4(t, l+"ueip")
 	u.UPFIP = drawIPv4(t, l+"upfip")
 	u.TEID = rapid.Uint32().Draw(t, l+"teid")
@@ -381,6 +384,9 @@ func scenarioClasses(sc refamf.Scenario) []string {
 		}
 		if u.ForbiddenTACs > 0 {
 			cl = append(cl, "downlink-message>1KiB")
+		}
+		if u.CUCDelayMs > 0 {
+			cl = append(cl, "configuration-update-command-sent-late")
 		}
 		if u.Options&refamf.NGAPOptionMask != 0 {
 			cl = append(cl, "optional-dl-ie")
